@@ -348,7 +348,7 @@ func (c *Ctx) ruleFinalGate() {
 }
 
 func init() {
-	register("C22", "structural necessary conditions only: who-may-call table of SetFinalisedHash over the whole module (R-FINALGATE/callers), must-pass-through of the supermajority gate on each finalisation path (R-FINALGATE/voter, /commit, /import, exact edge-removal reachability on the SSA), equivocators-count-once shape of the tally (R-FINALGATE/once), stage-selected branches touch only their stage's vote containers (R-STAGEMAPS), strict threshold convention and formula (R-THRESHCONV)",
+	register("C22", "structural necessary conditions only: who-may-call table of SetFinalisedHash over the whole module (R-FINALGATE/callers), must-pass-through of the supermajority gate on each finalisation path (R-FINALGATE/voter, /commit, /import, exact edge-removal reachability on the SSA), equivocators-count-once shape of the tally (R-FINALGATE/once) and its guarded-by discipline (R-TALLYLOCK: the equivocation maps are touched only under mapLock), stage-selected branches touch only their stage's vote containers (R-STAGEMAPS), strict threshold convention and formula (R-THRESHCONV)",
 		"Decides a NECESSARY condition of safety, not safety itself: (1) SetFinalisedHash is called only from the voter's finalise, the commit handler, the block importer, genesis initialisation and the offline rewind/import commands; (2) finalise() is called only from attemptToFinalize on the edge precommits > floor(2n/3), where the count is getTotalVotesForBlock(candidate, precommit); (3) the commit handler and the block importer finalise only through the success edge of their justification verification; (4) the tally adds direct votes and the number of equivocating voters (each equivocator once), every branch selected by the vote stage reads, stores and deletes votes in that stage's containers only, and every comparison with the threshold is strict; (5) floor(2n/3) is what threshold() computes (n = 1..300). "+
 			"NOT decided (no static argument in reach): that no two conflicting blocks are finalised under every interleaving, delay, loss and Byzantine behaviour — this needs the protocol-level argument (vote-selection rules across rounds, completability, GHOST) which quantifies over executions; the checks above only guarantee that no code path finalises without the supermajority gate the safety argument rests on.",
 		"signature verification, ancestry queries and the honest-supermajority assumption itself", "DESIGN.md §5 (C22), §8.2 R-FINALGATE, R-STAGEMAPS",
@@ -359,6 +359,11 @@ func init() {
 			c.ruleFinalGate()
 			c.min("R-FINALGATE/voter", 2)
 			c.min("R-FINALGATE/once", 2)
+			c.doc("R-TALLYLOCK", "lib/grandpa: the equivocation maps pv/pcEquivocations are read and written only with Service.mapLock held (must-hold dataflow, requirement forwarded to callers of unexported functions); with it the move of a voter from the direct votes to the equivocators is atomic for the tally")
+			c.ruleLocks(lockSpec{dir: gDir, typ: "Service", mutex: "mapLock", guarded: []string{"pvEquivocations", "pcEquivocations"}, rule: "R-TALLYLOCK", noL4: true,
+				l1Exempt: map[string]string{"(*Service).initiateRound": "round set-up installs fresh maps under roundLock, which vote handling holds; the round's tally starts after it returns"}})
+			c.min("R-TALLYLOCK/L1", 12)
+			c.min("R-TALLYLOCK/L3", 7)
 			c.ruleStageMaps()
 			c.ruleEquivocatorRemoved()
 			c.min("R-STAGEMAPS", 6)
